@@ -96,7 +96,25 @@ type parser struct {
 	funcEffect a.Effect
 	loops      a.LoopStack
 	allowVar   bool
+	depth      uint32
 }
+
+// maxDepth bounds the parser's recursion (nested parentheses, unary operators,
+// blocks, else-if chains, type expressions and list literals), so that absurd
+// nesting is an ordinary error instead of a stack overflow. It is well above
+// a.MaxExprDepth, a.MaxBodyDepth and a.MaxTypeExprDepth, which later stages
+// enforce on the (shallower) AST.
+const maxDepth = 1024
+
+func (p *parser) enter() error {
+	if p.depth >= maxDepth {
+		return fmt.Errorf(`parse: recursion depth too large at %s:%d`, p.filename, p.line())
+	}
+	p.depth++
+	return nil
+}
+
+func (p *parser) leave() { p.depth-- }
 
 func (p *parser) line() uint32 {
 	if len(p.src) != 0 {
@@ -496,6 +514,11 @@ func (p *parser) parseFieldNode1(flags a.Flags) (*a.Node, error) {
 }
 
 func (p *parser) parseTypeExpr() (*a.TypeExpr, error) {
+	if err := p.enter(); err != nil {
+		return nil, err
+	}
+	defer p.leave()
+
 	if x := p.peek1(); x == t.IDNptr || x == t.IDPtr {
 		p.src = p.src[1:]
 		rhs, err := p.parseTypeExpr()
@@ -617,6 +640,11 @@ func (p *parser) parseBracket(sep t.ID) (op t.ID, ei *a.Expr, ej *a.Expr, err er
 }
 
 func (p *parser) parseBlock(doubleCurly bool) ([]*a.Node, error) {
+	if err := p.enter(); err != nil {
+		return nil, err
+	}
+	defer p.leave()
+
 	if doubleCurly {
 		if x := p.peek1(); x != t.IDOpenDoubleCurly {
 			got := p.tm.ByID(x)
@@ -1163,6 +1191,11 @@ func (p *parser) parseIOManipNode() (*a.Node, error) {
 }
 
 func (p *parser) parseIf() (*a.If, error) {
+	if err := p.enter(); err != nil {
+		return nil, err
+	}
+	defer p.leave()
+
 	if x := p.peek1(); x != t.IDIf {
 		got := p.tm.ByID(x)
 		return nil, fmt.Errorf(`parse: expected "if", got %q at %s:%d`, got, p.filename, p.line())
@@ -1417,6 +1450,11 @@ func (p *parser) parsePossibleListExprNode() (*a.Node, error) {
 }
 
 func (p *parser) parsePossibleListExpr() (*a.Expr, error) {
+	if err := p.enter(); err != nil {
+		return nil, err
+	}
+	defer p.leave()
+
 	// TODO: put the [ and ] parsing into parseExpr.
 	if x := p.peek1(); x != t.IDOpenBracket {
 		return p.parseExpr()
@@ -1490,6 +1528,11 @@ func (p *parser) parseExpr1() (*a.Expr, error) {
 }
 
 func (p *parser) parseOperand() (*a.Expr, error) {
+	if err := p.enter(); err != nil {
+		return nil, err
+	}
+	defer p.leave()
+
 	switch x := p.peek1(); {
 	case x.IsUnaryOp():
 		p.src = p.src[1:]
@@ -1527,11 +1570,23 @@ func (p *parser) parseOperand() (*a.Expr, error) {
 	}
 	lhs := a.NewExpr(0, 0, id, nil, nil, nil, nil)
 
+	// Each call, index, slice or selector suffix deepens the AST by one,
+	// without recursing here, so it counts towards maxDepth too.
+	suffixes := uint32(0)
+	defer func() { p.depth -= suffixes }()
+
 	for first := true; ; first = false {
 		flags := a.Flags(0)
 		switch p.peek1() {
 		default:
 			return lhs, nil
+		case t.IDExclam, t.IDQuestion, t.IDOpenParen, t.IDOpenBracket, t.IDDot:
+			if err := p.enter(); err != nil {
+				return nil, err
+			}
+			suffixes++
+		}
+		switch p.peek1() {
 
 		case t.IDExclam, t.IDQuestion:
 			flags |= p.parseEffect().AsFlags()
